@@ -15,6 +15,7 @@ theorem tableWrite_rows_other (σ : State) (c c' : Conn) (r : Req) (h : c' ≠ c
   | ident => simp [tableWrite, resetConn, h]
   | disconnect => simp [tableWrite, resetConn, h]
   | rw w m p e => simp [tableWrite]
+  | malformed a s => simp [tableWrite]
 
 theorem rows_other_stepH (cfg : Cfg) (σ σ' : State) (c c' : Conn) (h : c' ≠ c) (hs : stepH cfg σ c = some σ') :
     σ'.active c' = σ.active c' ∧ ∀ k, σ'.subs k c' = σ.subs k c' := by
@@ -65,6 +66,7 @@ theorem tableWrite_subs (σ : State) (c : Conn) (r : Req) (k : Name) (c' : Conn)
     · cases h
     · exact Or.inl h
   | rw w m p e => exact Or.inl h
+  | malformed a s => exact Or.inl h
 
 /-- the keys in use are keys of module / parameter scopes -/
 def KeysInv (σ : State) : Prop := ∀ k c, σ.subs k c = true → ∃ s, s ≠ Scope.all ∧ s.key = k
